@@ -1,6 +1,7 @@
 package mon
 
 import (
+	"fmt"
 	"go/ast"
 	"go/parser"
 	"go/token"
@@ -95,6 +96,18 @@ func (m c15) Run(ctx *core.Ctx) {
 	}
 	n := split(tierN(ctx.Tier, 1_000_000, 25_000_000), ctx.Shard, ctx.NShards)
 	r := ctx.Rng
+	// several references resolved against ONE reporting-mode base value
+	nb := split(tierN(ctx.Tier, 100_000, 3_000_000), ctx.Shard, ctx.NShards)
+	for i := int64(0); i < nb; i++ {
+		base := gen.ParseableBase(r)
+		if r.IntN(2) == 0 {
+			// bases that record a few validation entries themselves (slice capacity games)
+			base = gen.Pick(r, []string{" ", "\t", ""}) + gen.Pick(r, []string{"http:\\\\h\\a\\b", "http://u:p@h/a b/c d", "http:/h/%zz/%/x y", "https://h\\\\\\x\\y\\z| ", "file:\\c|\\x y", "http://h/ a b c d e"}) + gen.Pick(r, []string{"", " ", "?a b", "#c d"})
+		}
+		cs := &core.Case{Check: "shared-base", Base: core.S(base), HasBase: true, Input: core.S(gen.Reference(r)), Alt: core.S(gen.Reference(r))}
+		ctx.Begin(cs)
+		m.Exec(ctx, cs)
+	}
 	for i := int64(0); i < n; i++ {
 		in := gen.Input(r)
 		if r.IntN(4) == 0 {
@@ -107,10 +120,77 @@ func (m c15) Run(ctx *core.Ctx) {
 	}
 }
 
-func (c15) Exec(ctx *core.Ctx, cs *core.Case) {
+type entrySnap struct {
+	typ     string
+	failure bool
+	text    string
+}
+
+func snapEntries(es []error) []entrySnap {
+	out := make([]entrySnap, len(es))
+	for i, e := range es {
+		out[i] = entrySnap{string(errors.Type(e)), errors.Failure(e), e.Error()}
+	}
+	return out
+}
+
+func entriesEqual(a, b []entrySnap) bool {
+	if len(a) != len(b) {
+		return false
+	}
+	for i := range a {
+		if a[i] != b[i] {
+			return false
+		}
+	}
+	return true
+}
+
+// sharedBase: what is recorded on a successfully parsed URL stays what it is (and stays
+// non-fatal) while other references are resolved against the same base value.
+func (c15) sharedBase(ctx *core.Ctx, cs *core.Case, doc map[string]bool) {
+	p := c15Parsers[1]
+	b, err, pan := parseImpl(ctx, p, string(cs.Base), "", false, false)
+	if pan != nil || err != nil || b == nil {
+		return
+	}
+	var r1 *url.Url
+	var e1 error
+	if pan := ctx.Call(len(cs.Input)+len(cs.Base)+64, func() { r1, e1 = b.Parse(string(cs.Input)) }); pan != nil || e1 != nil || r1 == nil {
+		return
+	}
+	ctx.Nontrivial()
+	ctx.Count("shared_base_cases")
+	before := snapEntries(r1.ValidationErrors())
+	baseBefore := snapEntries(b.ValidationErrors())
+	for _, ref := range []string{string(cs.Alt), "\x00 http://[::1", string(cs.Alt) + " x", "%zz y"} {
+		_ = ctx.Call(len(ref)+len(cs.Base)+64, func() { _, _ = b.Parse(ref) })
+	}
+	after := snapEntries(r1.ValidationErrors())
+	if !entriesEqual(before, after) {
+		ctx.Violate("the entries recorded on a successfully parsed URL changed while other references were resolved against the same base", fmt.Sprint(before), fmt.Sprint(after), "")
+		return
+	}
+	if ba := snapEntries(b.ValidationErrors()); !entriesEqual(baseBefore, ba) {
+		ctx.Violate("the entries recorded on a base URL changed while references were resolved against it", fmt.Sprint(baseBefore), fmt.Sprint(ba), "")
+		return
+	}
+	for _, e := range after {
+		if e.failure || !doc[e.typ] {
+			ctx.Violate("an entry recorded on a successfully parsed URL is marked as a failure (or has no documented type)", false, e.failure, e.text)
+			return
+		}
+	}
+}
+
+func (m c15) Exec(ctx *core.Ctx, cs *core.Case) {
 	doc, derr := documentedTypes()
 	if derr != nil || len(doc) < 10 {
 		ctx.Broken("cannot read the documented error types from /repo/errors/codes.go")
+		return
+	}
+	if cs.Check == "shared-base" {
+		m.sharedBase(ctx, cs, doc)
 		return
 	}
 	input, base := string(cs.Input), string(cs.Base)
@@ -119,8 +199,14 @@ func (c15) Exec(ctx *core.Ctx, cs *core.Case) {
 	var errs [4]error
 	var snaps [4]obs.Snap
 	var ok [4]bool
+	repeat := len(input)%4 == 2
 	for i, p := range c15Parsers {
 		var pan *core.Panic
+		if repeat {
+			// the same call twice, judging the SECOND result: a parser that remembers its last input
+			// must not answer differently (results, recorded entries) on a repeat
+			_, _, _ = parseImpl(ctx, p, input, base, hasBase, false)
+		}
 		us[i], errs[i], pan = parseImpl(ctx, p, input, base, hasBase, false)
 		if pan != nil {
 			ctx.Violate("panic under the "+c15Names[i]+" parser", "", pan.String(), "")
